@@ -188,6 +188,9 @@ DEFS += [
     ], ['C15'], N=3, m=1, via='clone', attrs='#[derive(Clone)]'),
     flat('c15_clone_rewind', [R(cat(plus(c('a')), c('b')), 'return'), R(c('a'), 'return'), R(EOF, 'return')], ['C15'], N=3, m=1, via='clone',
          attrs='#[derive(Clone)]'),
+    # clone AND original both take the step (catches state shared outside the lexer struct)
+    flat('c15_clone_both_step', [R(cat(plus(c('a')), c('b')), 'return'), R(c('a'), 'return'), R(c('c'), 'return')], ['C15'], N=2, m=1, Nt=2, via='clone2',
+         attrs='#[derive(Clone)]', unwind=7),
     # ---------------------------------------------------------------- C14: the lexer is built from a &str with the same characters (real width function)
     flat('c14_str_input', [R(plus(cset(rng('a', 'z'))), 'return'), R(cat(ANY, c('!')), 'return'), R(ANY, 'return')], ['C14'],
          N=2, m=1, Nt=2, via='str', width=True, unwind=10),
